@@ -161,6 +161,21 @@ def check_map(rec, rng, rules, strict, merge, rd, script, scheme, sub):
             ref_ad = None
     host = f"{sub}.h.com" if sub else "h.com"
     paths = hostile_paths(rng, C3.gen_paths(rng, rules, 3))
+    # paths that spell a default out (the case the defaults redirect exists for), the other variables drawn from the
+    # whole pool - values with a literal per cent sign, a space, '?', '#', ';' have to survive the rebuilt URL
+    spelled = set()
+    for d in rules:
+        if d.get("defaults") and not d.get("alias"):
+            for r in rules:
+                if r["ep"] == d["ep"] and not r.get("defaults") and not r["tail"]:
+                    names = {s_[4] for s_ in r["segs"] if s_[0] == "var"}
+                    if set(d["defaults"]) <= names:
+                        for _ in range(8):
+                            parts = [s_[1] if s_[0] == "lit" else s_[1] + (str(d["defaults"][s_[4]]) if s_[4] in d["defaults"] else rng.choice(s_[2][4][-7:] + s_[2][4])) + s_[3] for s_ in r["segs"]]
+                            spelled.add("/" + "/".join(parts) + ("/" if r["branch"] else ""))
+    if spelled:
+        rec.observe("paths_spelling_out_a_default", len(spelled))
+        paths = sorted(set(paths) | spelled)
     strs = [R.rule_str(r) for r in rules]
     rules = [r for r in all_rules if r["ws"] == ws]  # what the reference sees: rules that can answer this adapter
     sp = script.rstrip("/")
